@@ -20,8 +20,9 @@
    LeadingPrefix / Boyer-Moore prefix, the case-insensitive prefix, LeadingPrefixes, fixed-distance
    sets / characters / strings, the literal after a leading loop, the landmark chain, the
    first-character set (FcPrefix).  *)
-From Verif Require Import Base.Prelude Base.Utf8 Model.Tree Model.Spec Model.Analysis
-     Proofs.AnalysisReach Proofs.AnalysisProofs Proofs.AnalysisPrefix Proofs.AnalysisFacts.
+From Verif Require Import Base.Prelude Model.CharClass Base.Utf8 Model.Tree Model.Spec Model.Analysis Model.Analysis2
+     Proofs.AnalysisReach Proofs.AnalysisProofs Proofs.AnalysisPrefix Proofs.AnalysisFacts
+     Proofs.Analysis2Cls Proofs.Analysis2Ffcc Proofs.Analysis2Fixed.
 
 (* ---- MinRequiredLength / MaxPossibleLength --------------------------------------------------- *)
 
@@ -279,3 +280,103 @@ Example C04_witness_saturation :
   min_len (NConcat 0 [NLoop false 0 1073741824 1073741824 (NMulti 0 [97; 98]);
                       NLoop false 0 1073741824 1073741824 (NMulti 0 [97; 98])]) = 2147483646.
 Proof. vm_compute. reflexivity. Qed.
+
+(* ============================================================================================== *)
+(* Second part: the analyses of Model/Analysis2.v (tied to the code by leg c04-analysis2, which     *)
+(* compares each function's result with the implementation's own function on every exported tree). *)
+(*                                                                                                  *)
+(* Classes: [sets] is the table set id -> CharSet structure exported with the tree; the semantics'   *)
+(* oracle set_in answers as the C16 model's CharIn does on those structures (hypothesis, = C16's    *)
+(* tie); cls_good_b (normal form of every exported class) and lits_ok (pattern runes in 0..MaxRune,  *)
+(* no empty Multi) are recomputed by the leg on every exported tree.  Input runes are valid         *)
+(* (0..0x10FFFF: outside that range class membership itself is the known finding rune_out_of_range). *)
+(* ============================================================================================== *)
+
+(* findFirstCharClass (prefixanalyzer.go:19): when it returns a class C, every successful attempt consumes
+   at least one character (the pattern is not nullable) and the first character consumed -- at p for a
+   left-to-right pattern (d = false), at p-1 for a right-to-left one -- is in C.  A nil result (None) makes
+   no claim: the pattern may match the empty string or could not be analysed. *)
+Theorem C04_first_char_class_sound :
+  forall e (cat_in : Z -> Z -> bool) (sets : list cls) (d : bool) fuel root p s' C,
+    forallb cls_good_b sets = true ->
+    (forall id x, set_in e id x = char_in cat_in (set_cls sets id) x) ->
+    (forall i, 0 <= char_at e i <= 1114111) ->
+    shape_ok d root = true -> no_ci_lit root = true -> lits_ok root = true -> 0 <= p <= tlen e ->
+    find_first_char_class cat_in sets root = Some C ->
+    attempt e fuel root p = Ok (Some s') ->
+    (if d then 0 < p /\ pos s' < p else p < tlen e /\ p < pos s') /\
+    char_in cat_in C (if d then char_at e (p - 1) else char_at e p) = true.
+Proof.
+  intros e cat_in sets d fuel root p s' C Hg Ha Hv.
+  exact (a2_first_char_class_sound e cat_in sets (sets_good_b cat_in sets Hg) Ha Hv d fuel root p s' C).
+Qed.
+Print Assumptions C04_first_char_class_sound.
+
+(* findFixedDistanceSets (prefixanalyzer.go:707, both analysis depths): for every published set at distance d,
+   at every successful attempt at p of a left-to-right pattern the character at p + d exists and is in the
+   set -- the predicate the run-time finder findFixedDistanceSetsLeftToRight relies on.  (The Chars / Range /
+   Negated decoration and the quality sort only select among and abbreviate these pairs.)  Right-to-left: the
+   function is not called (optimizations.go returns before it) and returns nothing for a right-to-left root. *)
+Theorem C04_fixed_distance_sets_sound :
+  forall e (cat_in : Z -> Z -> bool) (sets : list cls) (thorough : bool) fuel root p s',
+    forallb cls_good_b sets = true ->
+    (forall id x, set_in e id x = char_in cat_in (set_cls sets id) x) ->
+    (forall i, 0 <= char_at e i <= 1114111) ->
+    tlen e < INF ->
+    shape_ok false root = true -> no_ci_lit root = true -> lits_ok root = true -> 0 <= p <= tlen e ->
+    attempt e fuel root p = Ok (Some s') ->
+    forall f, In f (find_fixed_distance_sets cat_in sets thorough root) ->
+      0 <= fs_dist f /\ p + fs_dist f < tlen e /\
+      char_in cat_in (fs_set f) (char_at e (p + fs_dist f)) = true.
+Proof.
+  intros e cat_in sets th fuel root p s' Hg Ha Hv Hshort.
+  exact (a2_fixed_distance_sets_sound cat_in sets th (sets_good_b cat_in sets Hg) e Ha Hv Hshort fuel root p s').
+Qed.
+Print Assumptions C04_fixed_distance_sets_sound.
+
+(* ---- non-vacuity ---- *)
+Definition ex2_sets : list cls := [ranges_cls [(98, 99)]].                       (* [bc] *)
+Definition ex2_cat : Z -> Z -> bool := fun _ _ => false.
+Definition ex2_env (t : list Z) : env :=
+  {| txt := t; tstart := 0; ecma := false; endz_strict := false;
+     set_in := fun id x => char_in ex2_cat (set_cls ex2_sets id) x;
+     lower := fun r => r; is_word := fun _ => false; is_eword := fun _ => false |}.
+
+(* a[bc]d on "abd": three sets at distances 0, 1, 2, all true at the match; on "xbd" the attempt fails and
+   'x' is not in the set published for distance 0 *)
+Definition ex2_fixed : node :=
+  NCapture 0 0 (-1) (NConcat 0 [NChar COne 0 97; NChar CSet 0 0; NChar COne 0 100]).
+Example C04_witness_fixed_sets :
+  forallb cls_good_b ex2_sets = true /\ shape_ok false ex2_fixed = true /\ no_ci_lit ex2_fixed = true /\
+  lits_ok ex2_fixed = true /\
+  map (fun f => (ranges (fs_set f), fs_chars f, fs_dist f)) (find_fixed_distance_sets ex2_cat ex2_sets false ex2_fixed)
+    = [([(97, 97)], [97], 0); ([(98, 99)], [98; 99], 1); ([(100, 100)], [100], 2)] /\
+  attempt (ex2_env [97; 98; 100]) 10 ex2_fixed 0 = Ok (Some {| pos := 3; caps := [(0, [(0, 3)])] |}) /\
+  attempt (ex2_env [120; 98; 100]) 10 ex2_fixed 0 = Ok None /\
+  char_in ex2_cat (ranges_cls [(97, 97)]) 120 = false.
+Proof. vm_compute. repeat split; reflexivity. Qed.
+
+(* (?:ab|cd)e with the thorough analysis: the alternation's branches are merged per distance *)
+Definition ex2_alt : node :=
+  NCapture 0 0 (-1) (NConcat 0 [NAlternate 0 [NMulti 0 [97; 98]; NMulti 0 [99; 100]]; NChar COne 0 101]).
+Example C04_witness_fixed_sets_alternation :
+  shape_ok false ex2_alt = true /\ lits_ok ex2_alt = true /\
+  map (fun f => (ranges (fs_set f), fs_dist f)) (find_fixed_distance_sets ex2_cat [] true ex2_alt)
+    = [([(97, 97); (99, 99)], 0); ([(98, 98); (100, 100)], 1); ([(101, 101)], 2)] /\
+  find_fixed_distance_sets ex2_cat [] false ex2_alt <> [] /\
+  map (fun f => (ranges (fs_set f), fs_dist f)) (find_fixed_distance_sets ex2_cat [] false ex2_alt)
+    = [([(97, 97); (99, 99)], 0)] /\
+  attempt (ex2_env [99; 100; 101]) 10 ex2_alt 0 = Ok (Some {| pos := 3; caps := [(0, [(0, 3)])] |}).
+Proof. vm_compute. repeat split; try reflexivity. discriminate. Qed.
+
+(* a*[bc]: nothing at a fixed distance, the first-character class is [a-c]; the empty-able a*b* has none *)
+Definition ex2_ffcc : node :=
+  NCapture 0 0 (-1) (NConcat 0 [NCharLoop COne LGreedy 0 97 0 INF; NChar CSet 0 0]).
+Example C04_witness_first_char_class :
+  shape_ok false ex2_ffcc = true /\ lits_ok ex2_ffcc = true /\
+  option_map ranges (find_first_char_class ex2_cat ex2_sets ex2_ffcc) = Some [(97, 99)] /\
+  attempt (ex2_env [97; 97; 99]) 10 ex2_ffcc 0 = Ok (Some {| pos := 3; caps := [(0, [(0, 3)])] |}) /\
+  attempt (ex2_env [100; 99]) 10 ex2_ffcc 0 = Ok None /\
+  find_first_char_class ex2_cat ex2_sets
+    (NCapture 0 0 (-1) (NConcat 0 [NCharLoop COne LGreedy 0 97 0 INF; NCharLoop COne LGreedy 0 98 0 INF])) = None.
+Proof. vm_compute. repeat split; reflexivity. Qed.
